@@ -1,6 +1,6 @@
 """C19 — parsing is total; printing an AST and re-parsing it is the identity.
 
-E1: every string of <= K tokens over a 63-token alphabet (quick K=4: 16 M strings; thorough K=5: 10^9), every program of the
+E1: every string of <= K tokens over a 66-token alphabet (quick K=4: 19 M strings; thorough K=5: 1.3 x 10^9), every program of the
 C01 families, and every single token-level mutation (delete / duplicate / swap / replace by each alphabet token) of the
 shortest family programs goes through parse -> print -> parse -> print -> parse on the real parser (binary `vtok`):
 the parser must return (no panic) an AST or an error positioned inside the text; it must not intern strings that do not occur
@@ -11,6 +11,8 @@ import json, os, subprocess
 from concurrent.futures import ThreadPoolExecutor
 from .. import core
 from .. import families as F
+
+NTOK = 66  # size of vtok's TOKENS alphabet (harness/crates/vtok/src/main.rs)
 
 PACKAGES = ("vrun", "vtok")
 # failure kinds that belong to C02 (reported there), all others are C19's
@@ -67,7 +69,7 @@ def report(chk, fails, kinds_filter, prop_kinds_exclude=()):
 def run(chk):
     tier = chk.tier
     K = 5 if tier == "thorough" else 4
-    res = run_shards([["tokens", str(K), str(i), str(i + 1), "eval"] for i in range(63)])
+    res = run_shards([["tokens", str(K), str(i), str(i + 1), "eval"] for i in range(NTOK)])
     tot, outcomes, fails = merge(res)
     chk.part("tokens", K=K, **tot)
     fam = []
@@ -90,13 +92,13 @@ def run(chk):
             traces_validated_against_impl=accepted + tot["evaluated"] + t2["evaluated"], distinct_nontrivial=accepted)
     chk.cov["distinct_outcomes"] = len(outcomes)
     chk.cov["outcome_classes_of_accepted_texts"] = outcomes
-    chk.cov["rule"] = ("E1: all strings of <= %d tokens over the 63-token alphabet + all programs of the listed families + all single token-level mutations of the "
+    chk.cov["rule"] = ("E1: all strings of <= %d tokens over the 66-token alphabet + all programs of the listed families + all single token-level mutations of the "
                        "shortest programs; states = texts parsed, transitions = parses + evaluations (text and printed form); non-trivial = accepted by the parser "
                        "(and therefore printed, re-parsed twice and evaluated twice)" % K)
     chk.sample({"tokens": "a ?. ( )"})
     chk.sample({"program": fam[len(fam) // 3][:200]})
     chk.sample({"mutant_of": shortest[0][:200]})
-    chk.assumptions += ["token alphabet of 63 tokens, separated by single spaces", "AST equality is judged through the printed form (print(parse(p)) == p three times), not through PartialEq on spans"]
+    chk.assumptions += ["token alphabet of 66 tokens (three numeric literal kinds: small integer, fraction, integer beyond i32; BigInt), separated by single spaces", "AST equality is judged through the printed form (print(parse(p)) == p three times), not through PartialEq on spans"]
     import shutil
     shutil.rmtree(os.path.join(core.OUT, "tmp", "c19-%d" % os.getpid()), ignore_errors=True)
 
